@@ -624,3 +624,19 @@ def splice_procedures(root: FuncNode, resolve: Callable[[ast.Call], tuple[FuncNo
             break
     ast.fix_missing_locations(root)
     return root
+
+
+def slot_reads(expr: ast.AST, cont: str) -> ast.AST:
+    """`cont.get(k)` read as `cont[k]` (on a copy): both denote the value filed under k; whether k is
+    present is a matter of the guards, which are checked with their own polarity (`presence`)."""
+    class T(ast.NodeTransformer):
+        def visit_Call(self, node: ast.Call) -> ast.AST:  # noqa: N802
+            self.generic_visit(node)
+            if isinstance(node.func, ast.Attribute) and node.func.attr == "get" and len(node.args) == 1 and not node.keywords \
+                    and u(node.func.value) == cont:
+                return ast.copy_location(ast.Subscript(value=node.func.value, slice=node.args[0], ctx=ast.Load()), node)
+            return node
+
+    wrapper = ast.Expr(value=copy.deepcopy(expr))
+    T().visit(wrapper)
+    return wrapper.value
